@@ -53,7 +53,7 @@ CLAIMED = {
                 'ponder-move result only after it was found in a generated move list; (5) the tablebase PV extension truncates the PV at '
                 '(6) the MultiPV count that indexes / offsets the root list or is handed on with it is, at every use, min(.., rootMoves.size()) and the list is not resized after the clamp. '
                 'the number of moves it replayed. Right level: legality of the answer in every configuration follows from where the '
-                'answer can come from - a provenance/typestate fact that holds for all positions, limits and options at once. Added clause (7): the printed text of a move is its UCI form (printer interpreted per promotion code). (8) MoveList::filter decides membership in the searchmoves list by the full move identity. (9) every entry of a multi-PV report is printed at most once. (10) = C04.1: every checkmate score of negaScout / quiesce is \'mated in 0\' of the one linear family that notifyPV, the hash table and the 50-move margin decode. (11) = C04.9 the ABDADA control value BUSY is never read as a score.',
+                'answer can come from - a provenance/typestate fact that holds for all positions, limits and options at once. Added clause (7): the printed text of a move is its UCI form (printer interpreted per promotion code). (8) MoveList::filter decides membership in the searchmoves list by the full move identity. (9) every entry of a multi-PV report is printed at most once. (10) = C04.1: every checkmate score of negaScout / quiesce is \'mated in 0\' of the one linear family that notifyPV, the hash table and the 50-move margin decode. (11) = C04.9 the ABDADA control value BUSY is never read as a score. (12) in every TBProbe function that plays moves on the caller\'s position, each makeMove is taken back on every path to the exit.',
         'design_ref': 'DESIGN.md section 2, C03',
         'note': TB + ' Assumes the legal move generator is correct (C01). Does not decide score ranges or MultiPV distinctness.',
         'technique': 'custom static analysis: reaching-definition provenance, must-precede dominance, flag-sensitive untrusted-value typestate, index agreement',
@@ -100,7 +100,7 @@ CLAIMED = {
                 'poll counter, poll interval <= 1000 nodes, shouldStop compares elapsed time with the limit selected by searchNeedMoreTime. '
                 'Also: the limit shouldStop compares the elapsed time with is on every path bounded by the hard limit (hard, soft, or min(.., hard)). '
                 'Right level: the inequality chain is an arithmetic fact over a stated finite domain (exactly what interval analysis '
-                'decides); the latency clause is timing and is not claimed. Added clause (4): the option queue is drained before the go path reads option values. (5) the node accumulators the NPS throttle sleeps on are reset at every search start (shared with C14.2). (6) every position-decoding sweep of the on-demand tablebase generation gives up both for limit 0 (stop) and for a positive limit that has passed (ponderhit) - found and fixed defect D19. (7) the time origin of a search is the reception time of its go: unbroken chain clock reading -> SearchParams -> startThread -> Search::timeLimit -> tStart. (8) = C14.5 the option values the limits are computed from are the ones set last.',
+                'decides); the latency clause is timing and is not claimed. Added clause (4): the option queue is drained before the go path reads option values. (5) the node accumulators the NPS throttle sleeps on are reset at every search start (shared with C14.2). (6) every position-decoding sweep of the on-demand tablebase generation gives up both for limit 0 (stop) and for a positive limit that has passed (ponderhit) - found and fixed defect D19. (7) the time origin of a search is the reception time of its go: unbroken chain clock reading -> SearchParams -> startThread -> Search::timeLimit -> tStart. (8) = C14.5 the option values the limits are computed from are the ones set last. (9) a soft limit written inside Search is the minimum of its computed value and the hard limit.',
         'design_ref': 'DESIGN.md section 2, C06',
         'note': TB + ' Does not decide wall-clock latency ("within one polling interval").',
         'technique': 'custom static analysis: reaching-definition provenance, interval abstract interpretation with subdivision over the stated input domain, dominance-based ordering, poll-structure pairing',
@@ -116,7 +116,7 @@ CLAIMED = {
                 '(5) group structure of the first-layer accumulator: in every build variant addSubWeights only loads, stores and applies wrapping 16-bit add / subtract in matching numbers (no clamp, no saturating intrinsic), and the full refresh uses the same routine. '
                 'squares rotated, side inverted, score negated). Right level: purity and colour symmetry fail through a missed notification, '
                 'an incomplete key or an asymmetric case - all visible in the code for every history and position; numerical equality of '
-                'network outputs is value-level and not claimed. Added clause (7): the classification pass cached under the material signature branches only on functions of the material. (8) odd arithmetic: no right shift of a possibly negative score in the evaluation. (9) accumulator reuse test at least as fine as getIndex. (3, strengthened) no lossy operator (abs, division, shift, mask, narrowing conversion) stands between the contempt and the key term. (10) NNEvaluator::popState pops a level or invalidates the remaining one (forceFullEval) on every path.',
+                'network outputs is value-level and not claimed. Added clause (7): the classification pass cached under the material signature branches only on functions of the material. (8) odd arithmetic: no right shift of a possibly negative score in the evaluation. (9) accumulator reuse test at least as fine as getIndex. (3, strengthened) no lossy operator (abs, division, shift, mask, narrowing conversion) stands between the contempt and the key term. (10) NNEvaluator::popState pops a level or invalidates the remaining one (forceFullEval) on every path. (11) computeMaterialScore changes sign when the piece counts of the two colours are exchanged (interpreted for 25 count tables, the correction function uninterpreted).',
         'design_ref': 'DESIGN.md section 2, C07',
         'note': TB + ' Does not decide numerical equality of incremental vs fresh network outputs nor SIMD variant equality.',
         'technique': 'custom static analysis: who-may-write + must-notify dataflow, bounded-write guards, cache-key (def-use) completeness, constant agreement, sigma-normalised sibling comparison of mirrored switch cases',
@@ -176,7 +176,7 @@ CLAIMED = {
                 'dropped only on reversible-move information; the first-new index is the history size; (4) every GameState has an arm '
                 '(5) the en-passant mask tables are built from squares whose file stays on the board and makeMove records an en-passant square only under the mask test. '
                 'in the state and PGN-result switches. Right level: "for every game history" - the stack discipline and test ordering '
-                'are history-independent necessary conditions; the index arithmetic of the repetition scan is value-level and not claimed. Added clauses (7) repetition scan index set / key / claim rule by finite evaluation and (8) en-passant normal form of every replayed history move (found and fixed defects D13, D14). (9) drawRuleEquals compares placement, side, castling rights and en-passant square completely. (10) = C02.12 the en-passant normaliser the history relies on. (11) Game::getHistory takes back the moves n-1 .. 0, each with its own undo record, and stops early only at a half-move clock of 0 (game lengths 0..12 evaluated).',
+                'are history-independent necessary conditions; the index arithmetic of the repetition scan is value-level and not claimed. Added clauses (7) repetition scan index set / key / claim rule by finite evaluation and (8) en-passant normal form of every replayed history move (found and fixed defects D13, D14). (9) drawRuleEquals compares placement, side, castling rights and en-passant square completely. (10) = C02.12 the en-passant normaliser the history relies on. (11) Game::getHistory takes back the moves n-1 .. 0, each with its own undo record, and stops early only at a half-move clock of 0 (game lengths 0..12 evaluated). (12) every two-type piece set of Game::insufficientMaterial joins the white and the black piece of one kind.',
         'design_ref': 'DESIGN.md section 2, C11',
         'note': TB + ' Does not decide the index arithmetic of canClaimDrawRep nor console claim semantics.',
         'technique': 'custom static analysis: push/pop pairing on the CFG, dominance (must-precede), flag-sensitive dataflow for the mate-before-draw ordering, guard-set checks, switch exhaustiveness',
@@ -228,7 +228,7 @@ CLAIMED = {
                 'ChessError-family exceptions and the UCI handler lets nothing escape; (5) pawn-direction square offsets are colour-decided '
                 '(6) PGN scanner look-ahead typestate: every character read is appended, matched as a delimiter, skipped as white space or handed back before the next read / the return. '
                 'and mirrored. Right level: "never a crash or memory error for arbitrary bytes" needs the bounds and exception obligations '
-                'for every input; agreement of tables is the structural core of every round trip. The UCI promotion-suffix clause now interprets both printers per promotion code. (8) the END token leaves every token-reading loop of the PGN parser. (9) the castling text of the short / long form is printed for exactly the king\'s two-square moves from home (all 64 x 64 x 12 from/to/piece). (10) readFEN bounds the men per side by 16, which the unchecked 256-entry MoveList relies on - found and fixed defect D18. (11) the disambiguation scan of moveToString visits every index of the legal-move list (sizes 0..8 evaluated). (3, extended) an external half-move clock is bounded above as well as below before it is stored - found and fixed defect D21.',
+                'for every input; agreement of tables is the structural core of every round trip. The UCI promotion-suffix clause now interprets both printers per promotion code. (8) the END token leaves every token-reading loop of the PGN parser. (9) the castling text of the short / long form is printed for exactly the king\'s two-square moves from home (all 64 x 64 x 12 from/to/piece). (10) readFEN bounds the men per side by 16, which the unchecked 256-entry MoveList relies on - found and fixed defect D18. (11) the disambiguation scan of moveToString visits every index of the legal-move list (sizes 0..8 evaluated). (3, extended) an external half-move clock is bounded above as well as below before it is stored - found and fixed defect D21. (12) every token read with a running index in the UCI command handler is preceded by a fresh test that the index is below the token count.',
         'design_ref': 'DESIGN.md section 2, C17',
         'note': TB + ' Does not decide uniqueness of short forms, value-level round trips, or robustness of every byte string.',
         'technique': 'custom static analysis: constant evaluation of switch tables (inverse agreement), guard-derived length bounds, range provenance of external integers, exception-flow, colour-coherence of direction offsets',
